@@ -120,8 +120,14 @@ def _check_common(pr, res, mk, call_kw, ek_kw, formula, nwords, job, expected_ke
     full = sf(**{call_kw['tag']: data})
     ok = tuple(full.shape) == (n, 3, nwords)
     exp = [formula(S.terms(data)[t * data.shape[1]:(t + 1) * data.shape[1]], g, w) for t in range(n) for g in S.terms(G) for w in range(nwords)] if ok else []
-    pr.prove(z3.Not(any_differs(S.terms(full), exp)) if ok else z3.BoolVal(False),
-             f'{job["cls"]}: output[t, i, w] == the targeted operation on word w with guess g_i in place of the key word; shape (traces, guesses, words)', wit('columns'))
+    if not ok:
+        pr.prove(z3.BoolVal(False), f'{job["cls"]}: output shape (traces, guesses, words) = {(n, 3, nwords)}', wit('columns'))
+    else:
+        got = S.terms(full)
+        per = 3 * nwords
+        for t in range(n):          # one obligation per trace keeps every query small
+            pr.prove(z3.Not(any_differs(got[t * per:(t + 1) * per], exp[t * per:(t + 1) * per])),
+                     f'{job["cls"]}: output[{t}, i, w] == the targeted operation on word w with guess g_i in place of the key word; shape (traces, guesses, words)', wit('columns'), sample=(t == 0))
     # (i) at the expected key the column is the real cipher state
     ek = sf.compute_expected_key(**{ek_kw['tag']: ek_kw['key']})
     ekref = expected_key_ref()
